@@ -18,17 +18,18 @@ theorem AllOut.shape_ra {id : Nat} {s s' : RState} (h : AllOut s) (hs : Shape (R
   fun j c' hl => by
     obtain ⟨c, hc, r⟩ := hs.live' hl
     obtain ⟨n, e1, e2⟩ := r.2.2
-    exact (h j c hc).drop n e1 e2
+    exact (h j c hc).dropForget n e1 e2
 
 theorem AllOut.shape_rt {s s' : RState} (h : AllOut s) (hs : Shape RT s s') : AllOut s' :=
   h.shape_ra (id := 0) hs.rt_ra
 
 theorem AllOut.handleDisconnection {s s' : RState} {id : Nat} {r : Option String} (hi : AllOut s)
     (h : handleDisconnection s id r = .ok s') : AllOut s' := by
-  rcases handleDisconnection_effect h with ⟨_, rfl⟩ | ⟨c, hc, e1, _, _, _⟩
+  rcases handleDisconnection_effect h with ⟨_, rfl⟩ | ⟨c, s1, logs, hc, e1, _, _, _, hw⟩
   · exact hi
-  · intro j d hl
-    rw [getConn_remove s s' id j e1] at hl
+  · refine AllOut.shape_rt (s := s1) ?_ (wakeParked_shape hw)
+    intro j d hl
+    rw [getConn_remove s s1 id j e1] at hl
     by_cases hj : j = id
     · simp [hj] at hl
     · simp only [hj, if_false] at hl; exact hi j d hl
@@ -197,7 +198,7 @@ theorem AllOut.consumeLoop {id : Nat} : ∀ (fuel : Nat) {s s' : RState} {reques
       split at h
       · simp at h
       · rename_i s1 req1 st h1
-        have a := hi.forwardDeviceData h1
+        have a : AllOut (noteTurn s s1 req1) := (hi.forwardDeviceData h1).core (noteTurn_core s s1 req1)
         split at h
         · split at h
           · simp at h
@@ -226,7 +227,11 @@ theorem AllOut.consume {s s' : RState} {b : Bool} (hi : AllOut s) (h : consume s
       split at h
       · simp at h
       · rename_i s1 h1
+        split at h
+        · simp at h
+        rename_i s2 h2
         simp only [Except.ok.injEq, Prod.mk.injEq] at h; obtain ⟨rfl, _⟩ := h
+        refine AllOut.shape_rt ?_ (wakeTurnMoved_shape h2)
         have hc' : getConn s id = some c := hc
         have a : Shape RT s ({ setConn { s with readyqueue := rq } id { c with tracker := { c.tracker with requests := [] } }
             with readyqueue := (setConn { s with readyqueue := rq } id { c with tracker := { c.tracker with requests := [] } }).readyqueue ++ [id] } : RState) :=
